@@ -75,8 +75,12 @@ C11_SameState ==
           ev'.rt.d = ev'.rt2.d,
           [at |-> Where, fields |-> RTDiff])
 \* and behaves like the original: same response codes, same state (order-free form) after every later call
+\* (an export taken between two stake recalculations, or with pending stake updates, is "folded": the new chain recalculates at once what the
+\* original recalculates at the next period boundary, so until then a pending delegation is a stake on one chain and not on the other; such
+\* exports are judged on the round trip of the state only, the behaviour clause is for exports taken at a recalculation height)
+Folded == FlagOf("folded")
 C11_Behaves ==
-   Clause("C11", "NewChainBehavesLikeOriginal", HasPair /\ Imported /\ ~IsImport,
+   Clause("C11", "NewChainBehavesLikeOriginal", HasPair /\ Imported /\ ~IsImport /\ ~Folded,
           /\ ev'.obs.code = ev'.ideal.code
           /\ ev'.obs.stD = ev'.ideal.stD
           /\ ev'.obs.diskD = ev'.ideal.diskD,
